@@ -116,6 +116,10 @@ pub trait Check: Sync {
     fn directed(&self) -> Vec<Self::Case> {
         vec![]
     }
+    /// a bounded space enumerated completely (run before the random campaign, spread over the shards)
+    fn exhaustive(&self, _tier: Tier) -> Vec<Self::Case> {
+        vec![]
+    }
     /// maximal number of re-executions spent on shrinking one failure
     fn shrink_steps(&self) -> usize {
         1500
@@ -391,18 +395,22 @@ impl<C: Check> Part for Campaign<C> {
         let total = self.0.cases(ctx.tier);
         let per = total.div_ceil(shards);
         let directed = self.0.directed();
+        let exhaustive = self.0.exhaustive(ctx.tier);
+        let exhaustive_count = exhaustive.len();
         let results: Mutex<Vec<(usize, ShardResult)>> = Mutex::new(vec![]);
         std::thread::scope(|s| {
             for shard in 0..shards {
                 let results = &results;
                 let directed = &directed;
+                let exhaustive = &exhaustive;
                 let ctx = ctx.clone();
                 std::thread::Builder::new()
                     .stack_size(512 << 20)
                     .spawn_scoped(s, move || {
                         install_panic_hook();
-                        let d: &[C::Case] = if shard == 0 { directed } else { &[] };
-                        let r = self.shard(&ctx, shard, per, d);
+                        let mut d: Vec<C::Case> = if shard == 0 { directed.clone() } else { vec![] };
+                        d.extend(exhaustive.iter().enumerate().filter(|(i, _)| i % shards == shard).map(|(_, c)| c.clone()));
+                        let r = self.shard(&ctx, shard, per, &d);
                         results.lock().unwrap().push((shard, r));
                     })
                     .unwrap();
@@ -415,6 +423,9 @@ impl<C: Check> Part for Campaign<C> {
             rule: self.0.rule(),
             ..Default::default()
         };
+        if exhaustive_count > 0 {
+            rep.extra.insert("exhaustively_enumerated_cases".into(), json!(exhaustive_count));
+        }
         for (_, r) in results {
             rep.evaluations += r.evaluations;
             rep.nontrivial_keys.extend(r.keys);
@@ -760,7 +771,7 @@ impl Part for FuzzPart {
         let mut rep = PartReport {
             name: format!("libfuzzer:{}", self.target),
             rule: format!(
-                "cargo-fuzz target {} (oracle inside the target), corpus seeded with the repository's example files, -runs={} -seed=<VERIF_SEED> -max_len=4096; thorough tier only",
+                "cargo-fuzz target {} (oracle inside the target), corpus seeded with the repository's example files, 8 parallel jobs with -runs={} each, -seed=<VERIF_SEED> -max_len=4096; thorough tier only",
                 self.target, self.runs_thorough
             ),
             ..Default::default()
@@ -777,6 +788,10 @@ impl Part for FuzzPart {
         for (i, (ext, text)) in crate::generators::text::example_files().into_iter().enumerate() {
             let _ = std::fs::write(corpus.join(format!("seed-{i}.{ext}")), text);
         }
+        // eight libFuzzer jobs in parallel, each with the full run count and its own log file
+        let logdir = ctx.root.join("target").join("scratch").join(format!("fuzzlogs-{}-{}", self.target, std::process::id()));
+        let _ = std::fs::remove_dir_all(&logdir);
+        let _ = std::fs::create_dir_all(&logdir);
         let out = std::process::Command::new("cargo")
             .current_dir(&fuzz_dir)
             .env("CARGO_NET_OFFLINE", "true")
@@ -788,21 +803,36 @@ impl Part for FuzzPart {
             .arg(format!("-seed={}", (ctx.seed % 4_000_000_000).max(1)))
             .arg("-max_len=4096")
             .arg("-len_control=0")
-            .arg("-timeout=60")
+            .arg("-timeout=120")
+            .arg("-rss_limit_mb=6000")
+            .arg("-jobs=8")
+            .arg("-workers=8")
             .arg(format!("-artifact_prefix={}/", artifacts.display()))
             .output();
         let _ = std::fs::remove_dir_all(&corpus);
         match out {
             Err(e) => rep.internal_errors.push(format!("cannot start cargo fuzz: {e}")),
             Ok(o) => {
-                let log = String::from_utf8_lossy(&o.stderr).to_string();
-                let done = log
-                    .lines()
-                    .rev()
-                    .find_map(|l| l.strip_prefix("Done ").and_then(|r| r.split_whitespace().next()).and_then(|n| n.parse::<u64>().ok()));
-                if let Some(n) = done {
-                    rep.evaluations = n;
-                    rep.extra.insert("libfuzzer_done_runs".into(), json!(n));
+                // with -jobs the per-job output goes to fuzz-<n>.log in the working directory
+                let mut log = String::from_utf8_lossy(&o.stderr).to_string();
+                let mut done_total = 0u64;
+                for n in 0..8 {
+                    let f = fuzz_dir.join(format!("fuzz-{n}.log"));
+                    if let Ok(t) = std::fs::read_to_string(&f) {
+                        if let Some(d) = t
+                            .lines()
+                            .rev()
+                            .find_map(|l| l.strip_prefix("Done ").and_then(|r| r.split_whitespace().next()).and_then(|x| x.parse::<u64>().ok()))
+                        {
+                            done_total += d;
+                        }
+                        log.push_str(&t);
+                        let _ = std::fs::rename(&f, logdir.join(format!("fuzz-{n}.log")));
+                    }
+                }
+                if done_total > 0 {
+                    rep.evaluations = done_total;
+                    rep.extra.insert("libfuzzer_done_runs".into(), json!(done_total));
                 }
                 if !o.status.success() {
                     // a crash: the artifact path is printed by libFuzzer
